@@ -718,6 +718,37 @@ func (e *Env) call(x *Expr) Val {
 			fail("cast supports pointer types only")
 		}
 		return Val{T: "(i_val " + b.T + ")", Sort: "Loc", GoT: t}
+	case "atentry":
+		// atentry(k, e): the value e had when loop k was entered
+		if len(x.Args) != 2 || x.Args[0].Op != "int" {
+			fail("usage: atentry(<loop ordinal>, e)")
+		}
+		ee, ok := e.g.loopEntryEnv[int(x.Args[0].Int.Int64())]
+		if !ok {
+			fail("atentry(%s, ..): that loop has not been entered at this point", x.Args[0].Int)
+		}
+		v := ee.tr(x.Args[1])
+		if seqLike(v) && (v.GoT == nil || !isByteSlice(v.GoT)) {
+			return Val{T: ee.asSeq(v), Sort: "(Seq Int)"}
+		}
+		return ee.rv(v)
+	case "objof":
+		// objof(x): identity of the allocated object a pointer or slice refers to
+		b := e.rv(e.tr(x.Args[0]))
+		switch b.Sort {
+		case "Slice":
+			return Val{T: "(l_obj (s_arr " + b.T + "))", Sort: "Int"}
+		case "Loc":
+			return Val{T: "(l_obj " + b.T + ")", Sort: "Int"}
+		}
+		fail("objof() needs a pointer or slice")
+	case "elems":
+		// elems(x): all element cells of the array backing slice x (a modifies item)
+		b := e.rv(e.tr(x.Args[0]))
+		if b.Sort != "Slice" || b.GoT == nil {
+			fail("elems() needs a slice")
+		}
+		return Val{Addr: "(s_arr " + b.T + ")", Root: true, GoT: b.GoT.Underlying().(*types.Slice).Elem()}
 	case "allocated":
 		b := e.rv(e.tr(x.Args[0]))
 		obj := "(l_obj " + b.T + ")"
